@@ -200,13 +200,13 @@ func (v *Verifier) solveCanary(o *Oblig, dir string) {
 	allUnsat := true
 	var outs []string
 	for i, p := range parts {
-		if i >= 6 {
+		if i >= 2 {
 			allUnsat = false
 			break
 		}
 		file := filepath.Join(dir, fmt.Sprintf("q%05d-", atomic.AddInt64(&querySeq, 1))+sanitizeFile(o.Name)+fmt.Sprintf(".part%d", i+1)+".smt2")
 		os.WriteFile(file, []byte(o.renderPart(p.Goal, p.Anc)), 0o644)
-		quick := &Verifier{Timeout: 3}
+		quick := &Verifier{Timeout: 2}
 		if v.Timeout < 3 {
 			quick.Timeout = v.Timeout
 		}
